@@ -26,7 +26,7 @@ from yabgp.message.attribute.largecommunity import LargeCommunity  # noqa: E402
 PROPERTY = 'C17'
 RULE = ('per extended-community kind (route-target/route-origin in 2-octet-AS, IPv4 and 4-octet-AS form, color, '
         'encapsulation, redirect-vrf, redirect-nexthop, traffic-rate, traffic-action, traffic-marking, dmzlink-bw, esi-label, '
-        'mac-mobility, es-import, router-mac): boundary and random field values; communities: every well-known value, 0, '
+        'mac-mobility, es-import, router-mac): boundary and random field values, lists of one kind, lists mixing 2-6 kinds and every ordered pair of kinds (3 x 3 fixed values) in one attribute; communities: every well-known value, 0, '
         '65535:65535, random; large communities with fields to 2^32-1. Non-trivial = a field >= 2^16, an IPv4 '
         'administrator, a non-zero flag or a well-known name; distinct by (kind, octets).')
 ASSUMPTIONS = [
@@ -169,8 +169,9 @@ def check(case):
             out.append(('%s:%s:attribute-missing' % (fam, kind), 'no attribute %d in %s' % (code_, raw.hex()[:200])))
             continue
         unit = {'ext': 8, 'std': 4, 'large': 12}[fam]
+        kinds = case.get('kinds') or [kind] * (len(octets) // unit)
         same = len(got) == len(octets) and all(
-            equivalent(kind, octets[i:i + unit], got[i:i + unit]) for i in range(0, len(octets), unit))
+            equivalent(kinds[i // unit], octets[i:i + unit], got[i:i + unit]) for i in range(0, len(octets), unit))
         if not same:
             out.append(('%s:%s:octets-differ' % (fam, kind), 'text %r: RFC octets %s, produced %s' % (texts, octets.hex(), got.hex())))
             continue
@@ -192,6 +193,49 @@ def ext_case(draw, kind):
     return {'fam': 'ext', 'kind': kind, 'octets': octets.hex(), 'send': draw(st.integers(0, 3)) == 0}
 
 
+@st.composite
+def mixed_case(draw):
+    """one attribute holding communities of several kinds (2-6 of them, any order, kinds may repeat)"""
+    kinds = draw(st.lists(st.sampled_from(sorted(KINDS)), min_size=2, max_size=6))
+    octets = b''.join(KINDS[k](draw) for k in kinds)
+    return {'fam': 'ext', 'kind': 'mixed', 'kinds': kinds, 'octets': octets.hex(), 'send': draw(st.integers(0, 3)) == 0}
+
+
+class _Fixed(object):
+    """stands in for Hypothesis' draw: the i-th representative value of each field"""
+
+    def __init__(self, i):
+        self.i = i
+
+    def __call__(self, strategy):
+        vals = REPRESENTATIVE.get(id(strategy), FALLBACK)
+        return vals[self.i % len(vals)]
+
+
+REPRESENTATIVE = {id(vs.u16): [1, 65535, 100], id(vs.u32): [1, 2 ** 32 - 1, 70000], id(vs.ipv4_int): [0x0A000001, 0xC0000201, 0xFFFFFFFE],
+                  id(vs.label): [5010, 2 ** 20 - 1, 16]}
+FALLBACK = [1, 0, 1]
+
+
+def pair_octets(kind, i):
+    """a fixed community of the kind (i selects one of three value sets); kinds whose fields are drawn from ad-hoc strategies
+    get explicit values"""
+    explicit = {
+        'encapsulation': [struct.pack('!HHI', 0x030c, 0, t) for t in (8, 9, 2)],
+        'redirect-nexthop': [struct.pack('!H', 0x0800) + rc.ip4(0x0A000001) + struct.pack('!H', c) for c in (0, 1, 0)],
+        'traffic-rate': [struct.pack('!HHf', 0x8006, a, f32(r)) for a, r in ((0, 0), (65000, 1000), (1, 2 ** 24))],
+        'traffic-action': [struct.pack('!HIBB', 0x8007, 0, 0, f) for f in (1, 2, 3)],
+        'traffic-marking': [struct.pack('!HIBB', 0x8009, 0, 0, v) for v in (1, 63, 0)],
+        'esi-label': [struct.pack('!HBH', 0x0601, f, 0) + struct.pack('!I', l << 4)[1:] for f, l in ((1, 5010), (0, 2 ** 20 - 1), (1, 16))],
+        'mac-mobility': [struct.pack('!HBBI', 0x0600, f, 0, s) for f, s in ((1, 1), (0, 2 ** 32 - 1), (1, 0))],
+        'es-import': [struct.pack('!H', 0x0602) + m for m in (b'\x00\x11\x22\x33\x44\x55', b'\xff' * 6, b'\x00' * 5 + b'\x01')],
+        'router-mac': [struct.pack('!H', 0x0603) + m for m in (b'\x00\x11\x22\x33\x44\x55', b'\xff' * 6, b'\x00' * 5 + b'\x01')],
+    }
+    if kind in explicit:
+        return explicit[kind][i % 3]
+    return KINDS[kind](_Fixed(i))
+
+
 std_value = st.one_of(st.sampled_from(sorted(rc.WELL_KNOWN_COMMUNITIES)), st.sampled_from([0, 0xFFFFFFFF, 0xFFFF0006, 0xFFFEFFFF, 0x00010000, 65535]),
                       vs.u32)
 std_case = st.one_of(st.lists(std_value, min_size=1, max_size=5), st.lists(std_value, min_size=1, max_size=5),
@@ -211,7 +255,7 @@ def nontrivial(case):
         return case['kind'] == 'well-known' or any(o[i] or o[i + 1] for i in range(0, len(o), 4))
     if case['fam'] == 'large':
         return any(int.from_bytes(o[i:i + 4], 'big') >= 65536 for i in range(0, len(o), 4))
-    return any(b for b in o[2:6]) or case['kind'] in ('rt1', 'ro1', 'redirect-nexthop')
+    return any(b for b in o[2:6]) or case['kind'] in ('rt1', 'ro1', 'redirect-nexthop', 'mixed')
 
 
 def shards(tier):
@@ -223,13 +267,28 @@ def shards(tier):
             out += [{'name': 'ext-%s-%s' % (k, cfg), 'kind': 'ext', 'ext': k, 'cfg': cfg, 'examples': max(40, per // 4), 'hypothesis': True}
                     for k in sorted(KINDS)]
             out.append({'name': 'std-' + cfg, 'kind': 'std', 'cfg': cfg, 'examples': 300 if tier == 'quick' else 20000, 'hypothesis': True})
+    out.append({'name': 'ext-mixed', 'kind': 'mixed', 'examples': 3 * per, 'hypothesis': True})
+    for i in range(3):
+        out.append({'name': 'ext-pairs-%d' % i, 'kind': 'pairs', 'variant': i})
     out.append({'name': 'std', 'kind': 'std', 'examples': 1500 if tier == 'quick' else 200000, 'hypothesis': True})
     out.append({'name': 'large', 'kind': 'large', 'examples': 600 if tier == 'quick' else 60000, 'hypothesis': True})
     return out
 
 
 def run_shard(spec, seed, col, tier):
-    strat = ext_case(spec['ext']) if spec['kind'] == 'ext' else (std_case if spec['kind'] == 'std' else large_case)
+    if spec['kind'] == 'pairs':
+        # every ordered pair of community kinds in one attribute (three fixed value sets per kind)
+        i = spec['variant']
+        for a in sorted(KINDS):
+            for b in sorted(KINDS):
+                for j in range(3):
+                    case = {'fam': 'ext', 'kind': 'mixed', 'kinds': [a, b], 'octets': (pair_octets(a, i) + pair_octets(b, j)).hex(), 'send': (i == j)}
+                    res = check(case)
+                    col.case(case, a != b, labels=['ext:pairs'])
+                    for sig, detail in res:
+                        col.fail(sig, case, detail)
+        return
+    strat = ext_case(spec['ext']) if spec['kind'] == 'ext' else (mixed_case() if spec['kind'] == 'mixed' else (std_case if spec['kind'] == 'std' else large_case))
 
     def body(case):
         if spec.get('cfg'):
